@@ -278,7 +278,25 @@ def _hash_err_equal(a, b, line):
     pa, pb = a.split(':'), b.split(':')
     if len(pa) != len(pb) or pa[:2] != pb[:2] or pa[1] != 'err' or not _TWO_HASH.search(line):
         return False
-    return pa[4:7] == pb[4:7] and pa[7:] == pb[7:]
+    if pa[4:7] != pb[4:7] or pa[7] != pb[7]:
+        return False
+    if pa[8:] == pb[8:]:
+        return True
+    # ... and when the hash values are subexpressions, the argument evaluated BEFORE the failing one may have logged:
+    # one log is the other plus the lines of arguments that happened to come first
+    if len(_HASH_SUBEXPR.findall(line)) < 2 or len(pa) != 9:
+        return False
+    try:
+        la, lb = [l for l in unx(pa[8]).split('\n') if l], [l for l in unx(pb[8]).split('\n') if l]
+    except Exception:
+        return False
+    short, long_ = (la, lb) if len(la) <= len(lb) else (lb, la)
+    rest = list(long_)
+    for l in short:
+        if l not in rest:
+            return False
+        rest.remove(l)
+    return True
 
 
 _SHORT_WRITER = re.compile(r' -([2-9]|[1-9]\d+)( ;|$)')
